@@ -86,12 +86,14 @@ theorem roll_wraps : roll 1 [1, 2] ≠ shiftTrunc 1 ([1, 2] : List Nat) := by de
 /-- The three delay sites of the fast engine, as the source has them now (regenerated from
     `/repo` on every run): floor for source→patch and patch→patch legs, ceil for the
     receiver leg, no `np.roll` in the two exchange kernels, `np.roll` still in the receiver
-    kernel (D3), and the order-0 store guarded by the histogram length. -/
+    kernel (D3), the order-0 store guarded by the histogram length, and the Kang delay helper
+    zeroing the wrapped head after its `np.roll` (= `shiftTrunc`, tied bit for bit). -/
 theorem delay_sites_as_modelled :
     Generated.initRounding = .floor ∧ Generated.exchangeRounding = .floor ∧
     Generated.collectRounding = .ceil ∧ Generated.initUsesRoll = false ∧
     Generated.exchangeUsesRoll = false ∧ Generated.collectUsesRoll = true ∧
-    Generated.initGuarded = true := by decide
+    Generated.initGuarded = true ∧
+    Generated.kangDelayRolls = true ∧ Generated.kangDelayZeroesHead = true := by decide
 
 /-- Non-vacuity: a 2-patch, 3-bin scene in which order-1 energy crosses the end of the
     histogram (arrival bin 1 + 2 = 3 ≥ S) and is dropped, while order 0 is present. -/
